@@ -306,6 +306,11 @@ class Snapshot:
             )
         )
 
+        # The barrier keys outlive the snapshot in the store. Agree on an id
+        # that is unique to this snapshot so the keys are never reused.
+        barrier_id_list = [unique_id]
+        pg_wrapper.broadcast_object_list(barrier_id_list, src=0)
+
         # PendingSnapshot is responsible for closing `storage` and `event_loop`
         return PendingSnapshot(
             path=path,
@@ -316,6 +321,7 @@ class Snapshot:
             event_loop=event_loop,
             storage_options=storage_options,
             unique_id=unique_id,
+            barrier_id=barrier_id_list[0],
         )
 
     def restore(self, app_state: AppState, strict: bool = True) -> None:
@@ -975,6 +981,7 @@ class PendingSnapshot:
         event_loop: asyncio.AbstractEventLoop,
         unique_id: Optional[int],
         storage_options: Optional[Dict[str, Any]] = None,
+        barrier_id: Optional[int] = None,
     ) -> None:
         self.path = path
         self.pg: Optional[dist.ProcessGroup] = pg_wrapper.pg
@@ -983,6 +990,7 @@ class PendingSnapshot:
         self._done = False
         self._storage_options = storage_options
         self._unique_id = unique_id
+        self._barrier_id = barrier_id
 
         self.thread = Thread(
             target=self._complete_snapshot,
@@ -1016,7 +1024,7 @@ class PendingSnapshot:
         # Use a dist.Store-based barrier for synchronization so that the
         # snapshot can be committed in the background thread.
         barrier = LinearBarrier(
-            prefix=f"torchsnapshot_{path}",
+            prefix=f"torchsnapshot_{path}_{self._barrier_id}",
             store=store,
             rank=rank,
             world_size=world_size,
